@@ -32,7 +32,7 @@ class C17(PropBase):
                 yield dict(directed=False, removal=True, hist=[('add', 0, u, v, t, e) for (u, v, t, e) in h], family='int', functional=False)
 
     def n_random(self, tier):
-        return 500 if tier == 'quick' else 8000
+        return 500 if tier == 'quick' else 30000
 
     def random_cases(self, rnd, n):
         for i in range(n):
